@@ -1,6 +1,7 @@
 package main
 
 import (
+	"sync"
 	"encoding/json"
 	"fmt"
 	"reflect"
@@ -96,7 +97,7 @@ func genC15(c *Ctx) error {
 		}
 	}
 	c.Notes["stub_methods_classified"] = it.NumMethod()
-	c.Notes["rule"] = "scripted query bodies of 1-6 steps drawn from every mutating stub operation (put, put-empty, delete, event, validation parameter, private data put/delete/purge/validation parameter) and reads; query without a sender (direct call) and with a sender (direct call and as a task of executeTasks), with an access-control answer that does / does not carry changed-key transactions; on the task route a third of the queries share their request with a read-only transaction of a bystander, half of these under the same task id; the same bodies in a query method of a gRPC service registered through the gRPC router (the repository's sample BalanceService, METHOD_TYPE_QUERY), through the call context's stub and the contract's; plus every query function of the base contract and base token with valid and invalid arguments. For half of the sender-less direct queries also the values their reads returned are compared (the committed ones, whatever the body attempted before reading). Observed: the complete write set, event and private-data / validation-parameter attempts the simulated peer received for that invocation, and whether the committed ledger changed. Non-trivial: the body attempts at least one mutating operation."
+	c.Notes["rule"] = "scripted query bodies of 1-6 steps drawn from every mutating stub operation (put, put-empty, delete, event, validation parameter, private data put/delete/purge/validation parameter) and reads; query without a sender (direct call) and with a sender (direct call and as a task of executeTasks), with an access-control answer that does / does not carry changed-key transactions; on the task route a third of the queries share their request with a read-only transaction of a bystander, half of these under the same task id; the same bodies in a query method of a gRPC service registered through the gRPC router (the repository's sample BalanceService, METHOD_TYPE_QUERY), through the call context's stub and the contract's; plus every query function of the base contract and base token with valid and invalid arguments. A query is also run overlapping a transaction on the same instance (forced switch between the query's start and its first use of the stub), in a young process and in one that has used more than a million goroutine ids. For half of the sender-less direct queries also the values their reads returned are compared (the committed ones, whatever the body attempted before reading). Observed: the complete write set, event and private-data / validation-parameter attempts the simulated peer received for that invocation, and whether the committed ledger changed. Non-trivial: the body attempts at least one mutating operation."
 	rng := c.Rng
 	w := NewWorld()
 	if _, err := w.AddToken("TT", ChanOpts{}); err != nil {
@@ -241,6 +242,75 @@ func genC15(c *Ctx) error {
 		}
 		c.Emit(term, map[string]interface{}{"route": "QDirect", "grpc_query": gfn, "stub_from_context": grpcQueryUseCtx, "script": grpcQueryScript, "effects": eff, "status": res.Status, "message": res.Message}, mut)
 		c.Count(fmt.Sprintf("grpc_query_ctxstub_%v_status_%d", grpcQueryUseCtx, res.Status))
+	}
+	// a query overlapping a transaction on the same chaincode instance, in a young process and in one that has already used
+	// more than a million goroutine ids: the query's attempted write must reach nobody's transaction
+	for round := 0; round < 2; round++ {
+		if round == 1 {
+			var wg sync.WaitGroup
+			for k := 0; k < 1000200; k++ {
+				wg.Add(1)
+				go wg.Done()
+				if k%4096 == 0 {
+					wg.Wait()
+				}
+			}
+			wg.Wait()
+			c.Count("process_aged_past_1e6_goroutines")
+		}
+		for i := c.N(15, 150); i > 0; i-- {
+			qtag, ttag := fmt.Sprintf("q%d_%d", round, i), fmt.Sprintf("t%d_%d", round, i)
+			hub := &GateHub{arrive: make(chan string), release: map[string]chan struct{}{qtag: make(chan struct{}), ttag: make(chan struct{})}}
+			gateHub = hub
+			type done struct {
+				who string
+				res *TxResult
+			}
+			dch := make(chan done, 2)
+			run := func(who, fn, tag string) {
+				res, _ := w.Peer.Simulate("tt", w.Peer.NextTxID(), w.Client.Creator, false, strArgs(fn, []string{tag, "1"}))
+				dch <- done{who, res}
+			}
+			results := map[string]*TxResult{}
+			wait := func(tag string) bool { // until the invocation parks at its gate - or ends
+				select {
+				case <-hub.arrive:
+					return true
+				case d := <-dch:
+					results[d.who] = d.res
+					return false
+				}
+			}
+			go run("q", "gq", qtag)
+			qParked := wait(qtag)
+			go run("t", "gp", ttag)
+			tParked := wait(ttag)
+			if qParked {
+				hub.release[qtag] <- struct{}{}
+			}
+			for results["q"] == nil {
+				d := <-dch
+				results[d.who] = d.res
+			}
+			if tParked && results["t"] == nil {
+				hub.release[ttag] <- struct{}{}
+			}
+			for results["t"] == nil {
+				d := <-dch
+				results[d.who] = d.res
+			}
+			gateHub = nil
+			eff := effectsOf(results["q"], "")
+			for _, wr := range results["t"].Writes { // what the query attempted must not sit in the neighbour's write set either
+				if strings.HasPrefix(wr.Key, "c17_"+qtag) {
+					eff = append(eff, 1)
+				}
+			}
+			term := fmt.Sprintf("mkCase QDirect false false [1] %s false", intsTerm(eff))
+			c.Emit(term, map[string]interface{}{"route": "QDirect", "overlapping_transaction": true, "aged_process": round == 1, "effects": eff,
+				"query_status": results["q"].Status, "transaction_status": results["t"].Status, "transaction_message": results["t"].Message}, true)
+			c.Count(fmt.Sprintf("query_next_to_transaction_aged_%v", round == 1))
+		}
 	}
 	// every query function of the contract, valid-looking and invalid arguments
 	cc, _ := core.NewCC(&HToken{})
